@@ -26,6 +26,11 @@ Proof.
   revert i j; induction l as [|x l IH]; intros [|i] [|j] H; cbn; auto; try congruence.
 Qed.
 
+Lemma nth_set_nth_other {A} i j (v : A) l d : i <> j -> nth j (set_nth i v l) d = nth j l d.
+Proof.
+  revert i j; induction l as [|x l IH]; intros [|i] [|j] H; cbn; auto; try congruence.
+Qed.
+
 (* a weighted sum over the threads *)
 Definition tsum (w : req -> pc -> Z) (reqs : list req) (ps : list pc) : Z :=
   sumZ (map (fun rp => w (fst rp) (snd rp)) (combine reqs ps)).
@@ -35,8 +40,9 @@ Lemma tsum_set_nth w reqs ps i p p' r :
   tsum w reqs (set_nth i p' ps) = tsum w reqs ps - w r p + w r p'.
 Proof.
   unfold tsum. revert reqs i.
-  induction ps as [|x ps IH]; intros [|r0 reqs] [|i]; cbn; try discriminate.
-  - intros H1 H2. inversion H1; inversion H2; subst. rewrite !sumZ_cons. cbn. lia.
+  induction ps as [|x ps IH]; intros [|r0 reqs] [|i];
+    cbn [combine map set_nth fst snd nth_error]; try discriminate.
+  - intros H1 H2. inversion H1; inversion H2; subst. rewrite !sumZ_cons. cbn [fst snd]. lia.
   - intros H1 H2. rewrite !sumZ_cons, (IH reqs i H1 H2). lia.
 Qed.
 
@@ -92,16 +98,13 @@ Lemma cn_apply_tr s i r d call p' k :
   cn (apply_tr s i r d call p') k
   = cn s k + (if (r_node r =? k) && negb (k =? 0) then d else 0).
 Proof.
-  unfold apply_tr. destruct call; cbn; unfold upd;
-  destruct (r_node r =? 0) eqn:E0; cbn.
-  all: destruct (r_node r =? k) eqn:Ek; try (apply Z.eqb_eq in Ek); try (apply Z.eqb_eq in E0);
-       try (apply Z.eqb_neq in Ek); try (apply Z.eqb_neq in E0); cbn.
-  all: try (replace (k =? 0) with true by (symmetry; apply Z.eqb_eq; lia); cbn; lia).
-  all: try (replace (k =? 0) with false by (symmetry; apply Z.eqb_neq; lia); cbn).
-  all: try (replace (k =? r_node r) with true by (symmetry; apply Z.eqb_eq; lia); lia).
-  all: try (replace (k =? r_node r) with false by (symmetry; apply Z.eqb_neq; lia); lia).
-  all: try lia.
-  all: destruct (k =? 0); cbn; lia.
+  assert (H : cn (bump s r d) k = cn s k + (if (r_node r =? k) && negb (k =? 0) then d else 0)).
+  { cbn [bump cn]. unfold upd. destruct (Z.eqb_spec k (r_node r)) as [->|Ek].
+    - rewrite Z.eqb_refl. destruct (r_node r =? 0); cbn; rewrite ?Z.eqb_refl; cbn; lia.
+    - replace (r_node r =? k) with false by (symmetry; apply Z.eqb_neq; lia).
+      destruct (r_node r =? 0); cbn; [lia|].
+      replace (k =? r_node r) with false by (symmetry; apply Z.eqb_neq; lia). lia. }
+  unfold apply_tr. destruct call; cbn [set_pc add_call cn]; exact H.
 Qed.
 
 Lemma cs_apply_tr s i r d call p' k :
@@ -167,10 +170,10 @@ Proof.
     { exists PStart, r, 0, false, PDoneOk. repeat split; auto using pt_dry; apply set_pc_as_tr. }
     exists PStart, r, 1, false, PAdmitted. repeat split; auto using pt_reserve.
   - exists PAdmitted, r, 0, true, PInApi. split; [auto|]. split; [auto|]. split; [constructor|].
-    repeat split; intros; cbn.
+    repeat split; intros.
     + rewrite cn_apply_tr. cbn. destruct (_ && _); lia.
     + rewrite cs_apply_tr. cbn. destruct (_ =? _); lia.
-    + lia.
+    + rewrite ct_apply_tr. cbn. lia.
   - destruct (r_ok r) eqn:Eo.
     + exists PInApi, r, 0, false, PDoneOk. repeat split; auto using pt_ok; apply set_pc_as_tr.
     + exists PInApi, r, 0, false, PPost. repeat split; auto using pt_err; apply set_pc_as_tr.
@@ -245,7 +248,6 @@ Proof.
   - constructor.
   - split; [intros []|]. intros [p [Hp [_ Hcall]]].
     apply nth_error_In, repeat_spec in Hp. subst. rewrite andb_false_r in Hcall. discriminate.
-  - reflexivity.
 Qed.
 
 Lemma pe_inv_step dry c reqs s i :
@@ -287,7 +289,7 @@ Proof.
   - intro k. rewrite cs_apply_tr, Hsum, I4. specialize (Hheld (on_ns k)). unfold on_ns in *. lia.
   - rewrite ct_apply_tr, Hsum, I5. specialize (Hheld any_req). unfold any_req in *. lia.
   - intros Hd q Hq. rewrite pcs_apply_tr in Hq. apply in_set_nth in Hq. destruct Hq as [->|Hq]; [|eauto].
-    specialize (Hdry Hd). destruct Htr; try reflexivity; try discriminate.
+    specialize (Hdry Hd). destruct Htr; cbn in *; try reflexivity; try discriminate; congruence.
   - rewrite calls_apply_tr. destruct call; [|exact I7]. constructor; [|exact I7].
     intro Hin. apply I8 in Hin. destruct Hin as [q [Hq [_ Hc]]]. rewrite Hp in Hq. inversion Hq; subst q.
     inversion Htr; subst; rewrite andb_false_r in Hc; discriminate.
@@ -320,10 +322,7 @@ Proof.
     assert (Hoth : forall j, j <> i -> g' j = g j).
     { intros j Hj. unfold g, g', pc_of. rewrite pcs_apply_tr.
       destruct (nth_error reqs j); [|reflexivity].
-      f_equal. f_equal. apply nth_error_nth' with (d := PRefused) in Hp as _.
-      unfold nth. revert j Hj. generalize (pcs s) as l. clear. intros l.
-      revert i. induction l as [|x l IH]; intros [|i] [|j] Hj; cbn; auto; try congruence.
-      apply IH. congruence. }
+      rewrite (nth_set_nth_other i j p' (pcs s) PRefused) by congruence. reflexivity. }
     assert (Hgi : g i = sel r && live p).
     { unfold g. rewrite Hr, (pc_of_nth s i p Hp). reflexivity. }
     assert (Hg'i : g' i = sel r && live p').
@@ -348,10 +347,9 @@ Proof.
         destruct (sel r), (live p), (live p'); cbn; lia.
       * assert (Hni : ~ In i (calls s)) by (rewrite Hin; discriminate).
         rewrite (cnt_ext_notin g g' i _ Hni Hoth).
-        inversion Htr; subst; cbn [live called] in *; rewrite ?andb_false_r;
-          try (destruct (negb dry && sel r); lia).
-        all: destruct dry; cbn in *; try discriminate; try lia;
-             try (specialize (Hdry eq_refl); discriminate).
+        destruct dry eqn:Ed; cbn [negb andb] in *; [lia|].
+        inversion Htr; subst; cbn [live called] in *; try discriminate;
+          rewrite ?andb_false_r; lia.
 Qed.
 
 Lemma pe_inv_exec dry c reqs sched s :
